@@ -83,6 +83,30 @@ func main() {
 		defer os.Exit(1) // after the outputs have been written
 	}
 	outputs["TreeFormGen.lean"] = treeFormGen
+	// the translation of Filter*, IntMin/IntMax/Min/Max, NewListFrom (listgen2.go), failing loudly in the same way
+	list2Gen, l2err := genList2(pkg)
+	if l2err != nil {
+		list2Gen = "#check (vextract_translation_failed : " + leanString(l2err.Error()) + ")\n"
+		fmt.Fprintln(os.Stderr, "vextract: list translation (part 2) failed:", l2err)
+		defer os.Exit(1) // after the outputs have been written
+	}
+	outputs["ListGen2.lean"] = list2Gen
+	// the copy / isEqual / Clone / Equals translation (clonegen.go), in the same failing-loudly style
+	cloneGen, cerr := genClone(pkg)
+	if cerr != nil {
+		cloneGen = "#check (vextract_translation_failed : " + leanString(cerr.Error()) + ")\n"
+		fmt.Fprintln(os.Stderr, "vextract: clone translation failed:", cerr)
+		defer os.Exit(1) // after the outputs have been written
+	}
+	outputs["CloneGen.lean"] = cloneGen
+	// the translation of unquoteJSON / quoteJSON / ParseFile (strgen.go), in the same failing-loudly style
+	strGen, sgerr := genStr(pkg)
+	if sgerr != nil {
+		strGen = "#check (vextract_translation_failed : " + leanString(sgerr.Error()) + ")\n"
+		fmt.Fprintln(os.Stderr, "vextract: string translation failed:", sgerr)
+		defer os.Exit(1) // after the outputs have been written
+	}
+	outputs["StrGen.lean"] = strGen
 	for name, text := range outputs {
 		if err := os.WriteFile(filepath.Join(out, name), []byte(text), 0o644); err != nil {
 			fmt.Fprintln(os.Stderr, "vextract:", err)
